@@ -1,3 +1,135 @@
 import Driver.Common
--- stub driver (not yet implemented)
-def main : IO Unit := Driver.run () (fun s _ => (s, "bad-op"))
+import SSV.Model.Handshake
+open SSV SSV.HS
+
+/-
+Line protocol of the C07 driver (one op per line, one answer per line). Bytes are hex, `-` = empty.
+  chunks : hex/hex/...          users : uhex:phex,uhex:phex      addr : 4:iphex:port | 6:iphex:port | d:namehex:port | z
+  s5s <auth> <tcp> <udp> <locaddr> <users> <chunks> <P|N|A<code>>  -> <class> <addr> <user> <out> <stream>
+  s5c <authmsg> <cmd> <addr> <chunks>                              -> <class> <boundaddr> <out> <stream>
+  nones <chunks>                                                   -> <class> <addr> <stream>
+  nonec <addr> <payload>                                           -> <bytes>
+  reply <code>                                                     -> <reply>
+  https <noauth|users> <chunks> <P|N|A<code>>                      -> <class> <addr> <user> <out> <stream>
+  httpc <addr> <authheader> <chunks>                               -> <class> <out> <stream>
+  b64 <bytes>                                                      -> <bytes>
+  addrtext <addr>                                                  -> <text hex> <parse-back addr>
+-/
+
+def splitCh (s : String) (c : Char) : List String :=
+  (s.split (fun x => x == c)).toList.map (·.toString)
+
+def parseChunks (s : String) : Option Chunks :=
+  if s == "-" then some [] else (splitCh s '/').mapM ofHex?
+
+def parseUsers (s : String) : Option (List (Bytes × Bytes)) :=
+  if s == "-" then some [] else
+  (splitCh s ',').mapM fun up =>
+    match splitCh up ':' with
+    | [u, p] => do pure ((← ofHex? u), (← ofHex? p))
+    | _ => none
+
+def parseAddrField (s : String) : Option Addr :=
+  match splitCh s ':' with
+  | ["z"] => some .zero
+  | ["4", h, p] => do pure (.v4 (← ofHex? h) (← p.toNat?))
+  | ["6", h, p] => do pure (.v6 (← ofHex? h) (← p.toNat?))
+  | ["d", h, p] => do pure (.dom (← ofHex? h) (← p.toNat?))
+  | _ => none
+
+def showAddr : Addr → String
+  | .zero => "z"
+  | .v4 ip p => s!"4:{toHexField ip}:{p}"
+  | .v6 ip p => s!"6:{toHexField ip}:{p}"
+  | .dom n p => s!"d:{toHexField n}:{p}"
+
+def showErr : Err → String
+  | .eof => "eof" | .ueof => "ueof" | .panic => "panic"
+  | .badVersion b => s!"ver:{b.toNat}"
+  | .zeroNMethods => "nmethods0" | .noAcceptable => "noacc"
+  | .badAuthVersion b => s!"authver:{b.toNat}"
+  | .zeroULEN => "ulen0" | .zeroPLEN => "plen0" | .badCreds => "badcreds"
+  | .badAtyp b => s!"atyp:{b.toNat}" | .badDomainLen => "domlen"
+  | .badMethod b => s!"meth:{b.toNat}" | .replyErr b => s!"rep:{b.toNat}"
+  | .httpRead => "httpread" | .authFailed => "authfailed" | .badTarget => "badtarget"
+  | .connectStatus c => s!"status:{c}" | .oom => "oom"
+
+def parseLoc (s : String) : Option (Bool × Bytes × Nat) :=
+  match parseAddrField s with
+  | some (.v4 ip p) => some (false, ip, p)
+  | some (.v6 ip p) => some (true, ip, p)
+  | _ => none
+
+/-- apply Proceed / Abort(code) / nothing to a pending connection -/
+def applyAct (act : String) (b : Bytes) : M Unit :=
+  if act == "P" then proceed b
+  else if act.startsWith "A" then
+    match (act.drop 1).toNat? with
+    | some c => abort b c
+    | none => pure ()
+  else pure ()
+
+def s5sOp (auth tcp udp : Bool) (loc : Bool × Bytes × Nat) (users : List (Bytes × Bytes)) (cs : Chunks) (act : String) : String :=
+  let m : M (Bytes × ReqOutcome) := do
+    if auth then
+      let (u, r, b) ← serverAcceptUserPass users tcp udp loc
+      match r with
+      | .pending _ => applyAct act b
+      | _ => pure ()
+      pure (u, r)
+    else
+      let (r, b) ← serverAccept tcp udp loc
+      match r with
+      | .pending _ => applyAct act b
+      | _ => pure ()
+      pure ([], r)
+  let (res, s) := m { inp := cs }
+  match res with
+  | .ok (u, .pending a) =>
+    let st := if act == "P" then toHexField s.stream else "-"
+    s!"ok {showAddr a} {toHexField u} {toHexField s.out} {st}"
+  | .ok (u, .udpDone a) => s!"udp {showAddr a} {toHexField u} {toHexField s.out} -"
+  | .ok (u, .unsupported a c) => s!"unsup:{c.toNat} {showAddr a} {toHexField u} {toHexField s.out} -"
+  | .error e => s!"err:{showErr e} - - {toHexField s.out} -"
+
+def s5cOp (msg : Bytes) (cmd : Nat) (a : Addr) (cs : Chunks) : String :=
+  let m : M Addr := if msg.isEmpty then clientRequest (u8 cmd) a else clientRequestUserPass msg (u8 cmd) a
+  let (res, s) := m { inp := cs }
+  match res with
+  | .ok b => s!"ok {showAddr b} {toHexField s.out} {toHexField s.stream}"
+  | .error e => s!"err:{showErr e} - {toHexField s.out} -"
+
+def nonesOp (cs : Chunks) : String :=
+  let (res, s) := noneServer { inp := cs }
+  match res with
+  | .ok a => s!"ok {showAddr a} {toHexField s.stream}"
+  | .error e => s!"err:{showErr e} - -"
+
+def b? (s : String) : Option Bool := if s == "1" then some true else if s == "0" then some false else none
+
+def stepC07 (st : Unit) (line : String) : Unit × String :=
+  let bad := (st, "bad-op")
+  match fields line with
+  | ["s5s", auth, tcp, udp, loc, users, chunks, act] =>
+    match b? auth, b? tcp, b? udp, parseLoc loc, parseUsers users, parseChunks chunks with
+    | some a, some t, some u, some l, some us, some cs => (st, s5sOp a t u l us cs act)
+    | _, _, _, _, _, _ => bad
+  | ["s5c", msg, cmd, addr, chunks] =>
+    match ofHex? msg, cmd.toNat?, parseAddrField addr, parseChunks chunks with
+    | some m, some c, some a, some cs => (st, s5cOp m c a cs)
+    | _, _, _, _ => bad
+  | ["nones", chunks] =>
+    match parseChunks chunks with
+    | some cs => (st, nonesOp cs)
+    | none => bad
+  | ["nonec", addr, payload] =>
+    match parseAddrField addr, ofHex? payload with
+    | some a, some p => (st, toHexField (noneClient a p))
+    | _, _ => bad
+  | ["reply", code] =>
+    match code.toNat? with
+    | some c => (st, toString (replyFromDialResultCode c))
+    | none => bad
+  | _ => bad
+
+def main : IO Unit := Driver.run () stepC07
